@@ -381,6 +381,25 @@ def write_evidence(prop, tier, seed, specs, results, known_hits, violations, und
     samples = []
     for r in (dis[:3] + [r for r, _ in known_hits][:2] + bounded[:1]):
         samples.append({k: r[k] for k in ("ob", "config", "verdict", "backend", "paths", "solver_s", "wall_s", "detail")} | ({"witness": _js(r.get("witness"))} if r.get("witness") else {}))
+    # mechanical scan of the sidecar for unchecked assumptions (preconditions, disabled cross-checks, uninterpreted functions)
+    scan = {"assume_sites": [], "crosscheck_disabled": [], "uninterpreted_functions": []}
+    try:
+        import re as _re
+
+        for fn in sorted(set([f"contracts/{prop.lower()}.py"] + [f"contracts/{prop.lower()}_gray.py"])):
+            path_ = os.path.join(ROOT, fn)
+            if not os.path.exists(path_):
+                continue
+            for ln, line in enumerate(open(path_), 1):
+                t = line.strip()
+                if "ctx.assume(" in t or ".assume(" in t and "ex.assume" in t:
+                    scan["assume_sites"].append(f"{fn}:{ln}: {t[:140]}")
+                if _re.search(r"crosscheck\s*=\s*0", t):
+                    scan["crosscheck_disabled"].append(f"{fn}:{ln}: {t[:140]}")
+                if "uf_apply(" in t or "z3.Function(" in t:
+                    scan["uninterpreted_functions"].append(f"{fn}:{ln}: {t[:140]}")
+    except Exception:  # pragma: no cover
+        pass
     level = m.get("level", "proof")
     cov = {
         "obligations": len(proof),
@@ -402,6 +421,7 @@ def write_evidence(prop, tier, seed, specs, results, known_hits, violations, und
         },
         "crosscheck": {"harnesses": len(cross), "ok": sum(r["verdict"] == "discharged" for r in cross)},
         "out_of_reach": m.get("out_of_reach", []),
+        "assumption_scan": {k: {"count": len(v), "sites": v[:25]} for k, v in scan.items()},
         "undecided": [{"ob": r["ob"], "config": r["config"], "detail": r["detail"][:200]} for r in undecided],
         "samples": samples,
         "exhaustive": False,
